@@ -28,6 +28,8 @@ BREAKS = [
     ('ExprCond.get_r forgets the condition', 'miasmx/expression/expression.py', 'out=self.cond.get_r(mem_read).union(self.src1.get_r(mem_read))', 'out=set().union(self.src1.get_r(mem_read))', 'checks.C16smt', 'ind:ExprCond.get_r['),
     ('ExprMem.get_r asks the segment without memory reads', 'miasmx/expression/expression.py', 'r = r.union(self.segm.get_r(mem_read))', 'r = r.union(self.segm.get_r(False))', 'checks.C16smt', 'ind:ExprMem.get_r['),
     ('ExprAff.get_w names the source', 'miasmx/expression/expression.py', '            return self.dst.get_w()\n', '            return self.src.get_w()\n', 'checks.C16smt', 'ind:ExprAff.get_w['),
+    ('key_expr ignores the end of a slice', 'miasmx/expression/expression.py', 'return [ 5, key_expr(e.arg), e.start, e.stop ]', 'return [ 5, key_expr(e.arg), e.start ]', 'checks.C13smt', 'ind:key_expr[ExprSlice'),
+    ('key_expr ignores the segment of a cell', 'miasmx/expression/expression.py', 'return [ 3, key_expr(e.arg), e.size, key_expr(e.segm) ]', 'return [ 3, key_expr(e.arg), e.size ]', 'checks.C13smt', 'ind:key_expr[ExprMem'),
 ]
 
 DRIVER = r'''
